@@ -32,6 +32,15 @@ A_LIBS = [
     {"name": ["util", "wrap"], "src": "(define-syntax wrap (syntax-rules () ((wrap e) (list 'wrapped-by-a e)))) (define-syntax id (syntax-rules () ((id e) 'a-id))) "
                                       "(define-library (util wrap) (import (scheme base)) (export w) (begin (define (w x) (wrap x))))"},
 ]
+# library FILES beside A's program (found through the program directory): macros inside the library named like procedures of B, and like procedures
+# that the bundled (scheme base) source itself uses
+A_FILES = {
+    "filelib": "(define-library (util filelib) (import (scheme base)) (export finc)\n  (begin (define-syntax twice (syntax-rules () ((twice e) 'a-file-twice)))\n"
+               "    (define-syntax wrap (syntax-rules () ((wrap e) 'a-file-wrap)))\n    (define-syntax local-mac (syntax-rules () ((local-mac e) 'a-file-local)))\n"
+               "    (define-syntax id (syntax-rules () ((id e) 'a-file-id)))\n    (define (finc x) (+ x 1))))\n",
+    "filelib2": "(define-library (util filelib2) (import (scheme base)) (export fdec)\n  (begin (define-syntax pair? (syntax-rules () ((pair? e) 'a-file-pair)))\n"
+                "    (define-syntax null? (syntax-rules () ((null? e) #f)))\n    (define-syntax car (syntax-rules () ((car e) 'a-file-car)))\n    (define (fdec x) (- x 1))))\n",
+}
 B_PROCS = ["(define (twice f) (lambda (x) (f (f x))))", "((twice (lambda (x) (+ x 1))) 5)", "(define (local-mac x) (list 'b-local x))", "(local-mac 3)",
            "(define (wrap x) (list 'b-wrap x))", "(wrap 4)", "(define (id x) x)", "(id 9)"]
 # B registers its own, different sources under the library names that A uses
@@ -99,10 +108,20 @@ def run(tier, seed):
             A.insert(rng.randrange(len(A) + 1), rng.choice(HOSTILE))
         pairs.append((A, B))
     spec = {"stdlib": True}
+    import os, tempfile, shutil
+    fdir = tempfile.mkdtemp(prefix="c19-", dir=core.TMP)
+    os.makedirs(os.path.join(fdir, "util"))
+    for nm, src in A_FILES.items():
+        open(os.path.join(fdir, "util", nm + ".sld"), "w").write(src)
     jobs, meta = [], []
     for pi, (A, B) in enumerate(pairs):
         # instance A (and the instances created later) sometimes carry registered library sources with macros in them
         aspec = dict(spec, libs=A_LIBS) if pi % 2 else spec
+        if pi % 3 == 0:
+            # ... or find library files beside their program, which A imports first
+            aspec = dict(aspec, progdir=fdir)
+            A = ["(import (util %s))" % ("filelib" if pi % 2 else "filelib2"), "(finc 1)" if pi % 2 else "(fdec 1)"] + A
+            pairs[pi] = (A, B)
         bspec = dict(spec, libs=B_LIBS) if pi % 4 in (1, 2) else spec
         bsteps = lambda it: ([{"it": it, "import": [{"lib": ["util", "counter"]}, {"lib": ["util", "wrap"]}], "fresh_env": False}, {"it": it, "src": "(list (inc 5) limit (w 1))"}] if "libs" in bspec else []) \
             + [{"it": it, "src": t} for t in B]
@@ -176,6 +195,7 @@ def run(tier, seed):
             ctx.count("interleavings_isolated")
             ctx.nontriv(json.dumps([sorted(set(a for a in A if a in HOSTILE)), " ".join(skeleton_text(b) for b in B)[:400]]))
     ctx.legs.append("dev")
+    shutil.rmtree(fdir, ignore_errors=True)
     ctx.sample({"A": pairs[0][0][:12], "B": pairs[0][1][:12]})
     return ctx.finish(min_evals=100, min_nontrivial=50)
 
